@@ -135,8 +135,9 @@ def run_contract(c, tier, timeout_ms):
     # second opinion for anything not discharged while all cores were busy: one at a time, doubled budget
     # (a verdict must not depend on machine load)
     weak = [i for i, r in enumerate(res) if r["status"] in ("unknown", "sat-inst")]
-    if weak and len(weak) <= 40:
-        again = solve.discharge_all([res[i]["obl"] for i in weak], timeout_ms=timeout_ms * 2, parallel=False)
+    if weak and len(weak) <= 8:
+        # at most 8 queries on 16 cores: effectively unloaded. More than 8 weak verdicts are not a load artefact.
+        again = solve.discharge_all([res[i]["obl"] for i in weak], timeout_ms=timeout_ms * 2, parallel=True)
         for i, r2 in zip(weak, again):
             if r2["status"] == "unsat" or (res[i]["status"] == "unknown" and r2["status"] != "unknown"):
                 r2["time"] += res[i]["time"]
@@ -204,7 +205,10 @@ def main():
         importlib.import_module("contracts." + m)
     known = json.load(open(os.path.join(HERE, "KNOWN_FINDINGS.json"))) if os.path.exists(
         os.path.join(HERE, "KNOWN_FINDINGS.json")) else {"findings": []}
-    known_here = [k for k in known.get("findings", []) if k.get("property") == prop and k.get("status") == "open"]
+    known_all = [k for k in known.get("findings", []) if k.get("status") == "open" and
+                 (k.get("property") == prop or prop in k.get("properties", []))]
+    known_here = [k for k in known_all if k.get("kind") != "witness"]
+    known_wit = [k for k in known_all if k.get("kind") == "witness"]
 
     timeout_ms = 15000 if tier == "quick" else 60000
     contracts = [c for c in REG.contracts.values() if prop in c.props]
@@ -325,6 +329,25 @@ def main():
                 known_lines.append(f"KNOWN-FINDING: property={prop} {k['what']} [obligation {oid}]")
             # if it no longer reproduces the line disappears and nothing is suppressed
 
+    # ---- open findings identified by a witness input: re-run the witness on the current tree ---------------------------
+    witness_report = {}
+    if known_wit:
+        try:
+            env = dict(os.environ)
+            env["VERIF_REPO"] = source.repo_root()
+            p = subprocess.run(["/venv/bin/python", os.path.join(HERE, "witnesses", "run.py")] + [k["witness"] for k in known_wit],
+                               capture_output=True, text=True, timeout=600, env=env, cwd=HERE)
+            witness_report = json.loads(p.stdout)
+        except Exception as e:  # noqa
+            errors.append(f"witness runner failed: {type(e).__name__}: {e}")
+        for k in known_wit:
+            r = witness_report.get(k["witness"], {})
+            if r.get("reproduces") is True:
+                known_lines.append(f"KNOWN-FINDING: property={prop} {k['id']}: {k['what']} [witness {k['witness']}: {r.get('detail', '')[:200]}]")
+            elif r.get("reproduces") is None and r:
+                errors.append(f"witness {k['witness']}: {r.get('detail')}")
+            # reproduces == False: the recorded defect is gone on this tree; nothing is printed and nothing suppressed
+
     # ---- native cross-check of contracts on random pre-states ---------------------------------------------------
     xjobs = []
     n_rand = 150 if tier == "quick" else 1500
@@ -394,7 +417,7 @@ def main():
                     continue
                 h = hashlib.sha256((oid + str(f.get("key"))).encode()).hexdigest()[:10]
                 rpath = os.path.join("replays", f"{prop}-b{h}.json")
-                json.dump({"property": prop, "obligation": oid, "bounded_failure": f}, open(os.path.join(HERE, rpath), "w"),
+                json.dump({"property": prop, "obligation": oid, "bounded_failure": f, "how_to_replay": f"VERIF_SEED={seed} VERIF_TIER={tier} /venv/bin/python bounded/{b['script']} " + " ".join(b.get("args", [])) + "   (or parse bounded_failure.input with scriptplan and evaluate the clause)"}, open(os.path.join(HERE, rpath), "w"),
                           indent=1, default=str)
                 violations.append((oid, rpath, f.get("input", True)))
         except Exception as e:  # noqa
@@ -408,6 +431,18 @@ def main():
             doc[c.key] = {"sha": gens[c.key]["function"]["source_sha"],
                           "discharged": sorted({r["obl"].id for r in all_results if r["contract"] is c and r["status"] == "unsat"})}
         json.dump(doc, open(base_path, "w"), indent=0)
+
+    # ---- model validation: the ISO-calendar axioms used by the engine are compared with CPython on every run --------------
+    model_validation = {}
+    try:
+        from pyvc import calendar as _cal
+        model_validation["iso_calendar_axioms_days_checked_against_cpython_1970_2200"] = _cal.validate()
+        from pyvc import strings as _strs
+        model_validation["string_axioms_strings_checked_against_cpython"] = _strs.validate()
+    except AssertionError as e:
+        errors.append(f"calendar/string model disagrees with CPython: {e}")
+    except Exception as e:  # noqa
+        errors.append(f"calendar model validation failed to run: {e}")
 
     # ---- evidence ------------------------------------------------------------------------------------------------------
     wall = time.time() - t_start
@@ -433,6 +468,8 @@ def main():
         "path_cover": cover,
         "contract_results_reused_from_cache": cache_hits,
         "known_findings_confirmed": known_lines,
+        "known_finding_witnesses": witness_report,
+        "model_validation": model_validation,
         "engine_cross_check": {**xcheck, "samples": xsamples[:3]},
         "bounded_standins": [{k: v for k, v in b.items() if k != "failures"} | {"failures": len(b.get("failures", []))}
                              for b in bounded],
